@@ -5,6 +5,7 @@ import AuthModel.Store.Redis
 import AuthModel.Oidc.Run
 import AuthModel.Oidc.Sched
 import AuthModel.Gen
+import AuthModel.Secret
 open AuthModel AuthModel.Wire
 
 def parseMatch (t : Tok) : Option StringMatch :=
@@ -63,6 +64,7 @@ structure DState where
   tokTbl : List (Str × Option TokAttrs × Bool) := []
   s256Tbl : List (Str × Str) := []
   threads : List (Nat × Thread) := []
+  secret : Secret.State := { ns := [], index := [], filters := [] }
 
 def DState.parses (d : DState) : Str → Bool := fun s =>
   match d.parseTbl.find? (·.1 == s) with
@@ -209,6 +211,52 @@ def handleReq (d : DState) (toks : List Tok) : DState × String :=
     | _, _, _, _, _, _, _, _, _ => (d, "bad-op")
   | _ => (d, "bad-op")
 
+def parseSrc (t : Tok) : Option Secret.FilterS :=
+  match t with
+  | ['m'] => some none
+  | ['n'] => some (some .none)
+  | 'l' :: r => (unhex r).map fun s => some (.literal s)
+  | 'r' :: r =>
+    match splitC ':' r with
+    | [a, b] => do pure (some (.ref (← unhex a) (← unhex b)))
+    | _ => none
+  | _ => none
+
+def showSrc : Secret.FilterS → String
+  | none => "m"
+  | some .none => "n"
+  | some (.literal s) => "l" ++ hex s
+  | some (.ref a b) => "r" ++ hex a ++ ":" ++ hex b
+
+def showFilters (fs : List Secret.FilterS) : String :=
+  if fs.isEmpty then "-" else String.intercalate "," (fs.map showSrc)
+
+def handleSecret (d : DState) (toks : List Tok) : DState × String :=
+  match toks with
+  | [['l','o','a','d'], ns, filters] =>
+    match unhex ns, (splitList ',' filters).mapM parseSrc with
+    | some ns, some fs =>
+      match Secret.loadSecrets ns fs 0 with
+      | some idx => ({ d with secret := { ns := ns, index := idx, filters := fs } }, "ok")
+      | none => ({ d with secret := { ns := ns, index := [], filters := fs } }, "err")
+    | _, _ => (d, "bad-op")
+  | [['e','v'], ns, name, l] =>
+    match unhex ns, unhex name with
+    | some ns, some name =>
+      let lk : Option Secret.Lookup := match l with
+        | ['n','f'] => some .notFound
+        | ['d','e','l'] => some .deleting
+        | ['n','o','k','e','y'] => some (.data none)
+        | 'v' :: r => (unhex r).map fun v => .data (some v)
+        | _ => none
+      match lk with
+      | some lk =>
+        let st := Secret.reconcile d.secret ns name lk
+        ({ d with secret := st }, showFilters st.filters)
+      | none => (d, "bad-op")
+    | _, _ => (d, "bad-op")
+  | _ => (d, "bad-op")
+
 def showStep (acts : List (Act × ARes)) (t : Thread) : String :=
   showTrace (acts.map (·.1)) ++ (match t.answer with | some r => " => " ++ showResp r | none => "")
 
@@ -277,6 +325,7 @@ def handle (d : DState) (toks : List Tok) : DState × String :=
       | some i => hex i.sid ++ " " ++ hex i.nonce ++ " " ++ hex i.state ++ " " ++ hex i.verifierBytes ++ " " ++ toString i.rest.length
       | none => "exhausted"
     | none => "bad-op")
+  | ['s','e','c','r','e','t'] :: rest => handleSecret d rest
   | ['r','e','q'] :: rest => handleReq d rest
   | ['s','p','a','w','n'] :: rest => handleSpawn d rest
   | [['s','t','e','p'], tid] =>
